@@ -225,7 +225,7 @@ def run_strace(ctx, binary, test, script_path, workdir, inject):
     cmd += ["-o", os.path.join(workdir, "tr"), binary, "-test.run", "^%s$" % test, "-test.count=1", "-test.timeout", "120s"]
     env = ctx.go_env({"VERIF_C07_SCRIPT": script_path, "LOG_LEVEL": "fatal"})
     p = subprocess.run(cmd, cwd=workdir, env=env, stdout=subprocess.PIPE, stderr=subprocess.STDOUT, text=True,
-                       errors="replace", timeout=300)
+                       errors="replace", timeout=900)
     marker = os.path.join(workdir, "c07.marker").encode()
     for f in sorted(os.listdir(workdir)):
         if not f.startswith("tr."):
@@ -597,7 +597,7 @@ def run(ctx):
             f.write(json.dumps({"id": i, "jobs": jl}) + "\n")
     rt_out = os.path.join(ctx.scratch, "c07_rt_out.json")
     rc, txt = ctx.run_bin(bins["file"], "^TestVerifC07RoundTrip$", env={"VERIF_CASES": rt_in, "VERIF_OUT": rt_out, "LOG_LEVEL": "fatal"},
-                          timeout=1500)
+                          timeout=4500)
     if rc != 0 or not os.path.exists(rt_out):
         raise vlib.Infra("round-trip harness failed rc=%s:\n%s" % (rc, txt[-3000:]))
     rt = json.load(open(rt_out))
@@ -653,7 +653,7 @@ def run(ctx):
         for sc in seq_cases:
             f.write(json.dumps({"id": sc["id"], "sync": sc["sync"], "jobs": sc["jobs"], "steps": sc["steps"]}) + "\n")
     sq_out = os.path.join(ctx.scratch, "c07_seq_out.json")
-    rc, txt = ctx.run_bin(bins["file"], "^TestVerifC07Seq$", env={"VERIF_CASES": sq_in, "VERIF_OUT": sq_out, "LOG_LEVEL": "fatal"}, timeout=1500)
+    rc, txt = ctx.run_bin(bins["file"], "^TestVerifC07Seq$", env={"VERIF_CASES": sq_in, "VERIF_OUT": sq_out, "LOG_LEVEL": "fatal"}, timeout=4500)
     if rc != 0 or not os.path.exists(sq_out):
         raise vlib.Infra("sequence harness failed rc=%s:\n%s" % (rc, txt[-3000:]))
     sq = json.load(open(sq_out))
@@ -779,7 +779,7 @@ def run(ctx):
                     nlines += 1
         ov = {"Site": '"%s"' % site}
         res = ctx.tlc("OffsetsFileTrace", "OffsetsFileTrace.cfg", workers=1, files={path: "c07_trace.ndjson"}, overrides=ov,
-                      deadlock=False, timeout=1500, name="trace/%s" % site)
+                      deadlock=False, timeout=4500, name="trace/%s" % site)
         if not res.ok:
             raise vlib.Infra("trace validation run failed (%s %s):\n%s" % (res.violated, res.kind, res.out[-3000:]))
         fin = [p for p in res.printed if p.get("final")]
@@ -895,7 +895,7 @@ def run(ctx):
             for b, n in contents[site].items():
                 f.write(json.dumps({"id": n, "absent": b is None, "content": "" if b is None else hx(b)}) + "\n")
         cout = os.path.join(ctx.scratch, "c07_disks_%s_out.json" % site)
-        rc, txt = ctx.run_bin(binary, "^%s$" % test, env={"VERIF_CASES": cin, "VERIF_OUT": cout, "LOG_LEVEL": "fatal"}, timeout=1500)
+        rc, txt = ctx.run_bin(binary, "^%s$" % test, env={"VERIF_CASES": cin, "VERIF_OUT": cout, "LOG_LEVEL": "fatal"}, timeout=4500)
         if rc != 0 or not os.path.exists(cout):
             raise vlib.Infra("load harness failed rc=%s:\n%s" % (rc, txt[-3000:]))
         o = json.load(open(cout))
@@ -938,7 +938,7 @@ def run(ctx):
     conc_stats = []
     for mode, ms in (("0", 2500 if quick else 20000), ("1", 1500 if quick else 10000)):
         cout = os.path.join(ctx.scratch, "c07_conc_%s.json" % mode)
-        rc, txt = ctx.run_bin(bins["file"], "^TestVerifC07Conc$", timeout=600,
+        rc, txt = ctx.run_bin(bins["file"], "^TestVerifC07Conc$", timeout=1800,
                               env={"VERIF_OUT": cout, "VERIF_C07_MILLIS": ms, "VERIF_C07_SYNC": mode, "LOG_LEVEL": "fatal"})
         if not os.path.exists(cout):
             # a crash of the harness process inside save/commit is a real-code failure in a scenario the property quantifies over
